@@ -176,6 +176,18 @@ fn run_line(line: &str) -> String {
         let counter: u64 = f[4].parse().unwrap();
         let msg = if f[5] == "-" { vec![] } else { unhex(f[5]).unwrap() };
         let mut t: Vec<String> = Vec::new();
+        // artefacts (signature, public key) that the DEFAULT build produced for this case: whatever
+        // this build thinks of the parameter list, verifying them must not crash, and for lists
+        // inside the limits it must succeed
+        if f.len() >= 8 {
+            if let (Some(fsig), Some(fpk)) = (unhex(f[6]), unhex(f[7])) {
+                for e in crate::libcall::VERIFY_ENTRIES {
+                    let v = libcall::verify(alg, &msg, &fsig, &fpk, e);
+                    t.push(format!("verify_foreign[{}]={}", e.name().replace(' ', "_"), o(&v, |_| String::new())));
+                }
+            }
+        }
+        let emit_artifacts = std::env::var("VERIF_C14_EMIT_ARTIFACTS").is_ok();
         let kg = libcall::keygen(alg, &lv, &seed, None);
         t.push(format!("keygen={}", o(&kg, |k| format!("{}:{}", hex(&k.sk), hex(&k.vk)))));
         // a key file written by the default build (the model knows the format) is loaded here
@@ -193,6 +205,9 @@ fn run_line(line: &str) -> String {
             t.push(format!("callbacks={}", rec.cb_args.len()));
             t.push(format!("next={}", next));
             if let (Out::Ok(sig), Out::Ok(k)) = (&rec.result, &kg) {
+                if emit_artifacts && sig.len() <= 40_000 {
+                    t.push(format!("artifact={}:{}", hex(sig), hex(&k.vk)));
+                }
                 let v = libcall::verify(alg, &msg, sig, &k.vk, VerifyEntry::Bytes);
                 t.push(format!("verify={}", o(&v, |_| String::new())));
                 let mut m2 = msg.clone();
@@ -220,6 +235,7 @@ fn run_line(line: &str) -> String {
                 ));
             }
         }
-        format!("{} | {}", line, t.join(" "))
+        // (the transcript line starts with the case as given, without the artefact fields)
+        format!("{} | {}", f[..6].join(" "), t.join(" "))
     }
 }
